@@ -1,7 +1,8 @@
 import Dino.Units
 /-! Line-protocol operations for the units model: `units <F|Q> <op> args…`
 
-Scale operations run at the scalar of the mode (`Float` or `Rat`).  The time conversions run on
+Scale operations run at the scalar of the mode (`Float` or `Rat`); the operations on affine (offset)
+units are `anondim`, `adim`, `aconv` (and `alin`, the linearised variant that is NOT the code).  The time conversions run on
 `Rat` in both modes: at `F` every double is converted to the rational it denotes, the model is
 run with `fl := fl53`, and results are sent back as doubles (exact, since every result of `fl53`
 is a double); at `Q` the model is run with `fl := id`. -/
@@ -60,6 +61,14 @@ def parseQuantities? (s : String) : Option (List (K × List Int)) :=
         pure (m, d)
     | _ => none
 
+/-- an affine unit `conv:off:d1,d2,…` -/
+def parseAff? (s : String) : Option (AffUnit K) :=
+  match s.splitOn ":" with
+  | [c, o, d] => do
+      let c ← Num.parse? (K := K) c; let o ← Num.parse? (K := K) o; let d ← parseIntVec? d
+      pure ⟨c, o, d⟩
+  | _ => none
+
 def orErr (r : Option String) : String := r.getD "value-error"
 
 def runK (floorK : K → K) : List String → Option String
@@ -76,6 +85,18 @@ def runK (floorK : K → K) : List String → Option String
   | ["dim", st, ut, vs] => do
       let sc ← parseScale? K st; let a ← parseAtoms? K ut; let vs ← parseVec? (K := K) vs
       pure (orErr ((dimensionalizeVec sc (compound a) vs).map renderVec))
+  | ["anondim", st, ut, ms] => do
+      let sc ← parseScale? K st; let u ← parseAff? K ut; let ms ← parseVec? (K := K) ms
+      pure (orErr ((nondimAffVec sc u ms).map renderVec))
+  | ["adim", st, ut, vs] => do
+      let sc ← parseScale? K st; let u ← parseAff? K ut; let vs ← parseVec? (K := K) vs
+      pure (orErr ((dimensionalizeAffVec sc u vs).map renderVec))
+  | ["aconv", ut, ut', ms] => do
+      let u ← parseAff? K ut; let u' ← parseAff? K ut'; let ms ← parseVec? (K := K) ms
+      pure (renderVec (ms.map (convertAff u u')))
+  | ["alin", st, ut, vs] => do
+      let sc ← parseScale? K st; let u ← parseAff? K ut; let vs ← parseVec? (K := K) vs
+      pure (orErr ((vs.mapM (dimensionalizeLinearised sc u)).map renderVec))
   | ["mkscale", n, qs] => do
       let n ← n.toNat?; let qs ← parseQuantities? K qs
       pure (orErr ((mkScale n qs).map (renderScale K)))
